@@ -182,6 +182,35 @@ fn main() {
                 Err(_) => { println!("PANIC: parse_iso_literal panicked on this input"); std::process::exit(1); }
             }
         }
+        "parse_corpus" => {
+            // compile_fs parse_corpus <dir> <corpus file>: witness search for the parser's span
+            // obligations. The corpus holds base literals separated by lines `---`; EVERY prefix
+            // (at char boundaries) of every base literal is parsed as is and with a trailing
+            // blank, line break and U+00A0. Exit 1 iff the REAL parse_iso_literal panics.
+            let corpus = fs::read_to_string(std::env::args().nth(3).expect("corpus file")).unwrap();
+            let rel: common_lang_types::RelativePathToSourceFile = "src/a.ts".intern().into();
+            let ts = common_lang_types::TextSource { relative_path_to_source_file: rel, span: None };
+            std::panic::set_hook(Box::new(|_| {}));
+            let mut n = 0usize;
+            for base in corpus.split("\n---\n") {
+                let base = base.trim_end_matches('\n');
+                for (i, _) in base.char_indices().chain(std::iter::once((base.len(), ' '))) {
+                    for suffix in ["", " ", "\n", "\u{a0}"] {
+                        let text = format!("{}{}", &base[..i], suffix);
+                        n += 1;
+                        let t2 = text.clone();
+                        let r = std::panic::catch_unwind(move || {
+                            let _ = isograph_lang_parser::parse_iso_literal(t2, rel, Some("x".to_string()), ts);
+                        });
+                        if r.is_err() {
+                            println!("PANIC: parse_iso_literal panicked on {:?}", text);
+                            std::process::exit(1);
+                        }
+                    }
+                }
+            }
+            println!("inputs={n} no panic");
+        }
         _ => { eprintln!("usage: compile_fs root_only|interrupted [dir]"); std::process::exit(2); }
     }
 }
